@@ -12,12 +12,12 @@ CONSTANTS
   WakeAfterPush = TRUE
   Overflow = FALSE
   Hosts <- BothHosts
-  Muts <- AllMuts
+  Muts = {"none","repaired"}
   Ops = {"o1"}
   Timers = {}
   Jobs = {"j1"}
   Owner <- OwnB
   AnyTurn = TRUE
 SPECIFICATION XFairSpec
-INVARIANTS XTypeOK PendingBound TypeOK RealSafe CtlClearAfterPoll CtlIgnoreFlush CtlNoTimeout CtlNoFlush CtlDrainAfterBlocking
-PROPERTIES Completes WakeSeen OpSeen JobSeen
+INVARIANTS XTypeOK PendingBound TypeOK RealSafe RepBoth
+PROPERTIES CompletesRepaired JobSeenRepaired
